@@ -109,7 +109,7 @@ CLAIMS = {
         technique="Lean 4 program-shape theorems + W1C chip lemma + event injection between SPI transfers",
         design="7 C07"),
     'C08': dict(
-        text="Proof for buffer, shadow-array, list and integer-arithmetic safety, for the callback length, for the bound of the handler's loop and for seven of the eight float->integer conversions; sanitizer builds for the remaining one (frequency-error decode of a register read wider than the chip delivers) and for the calibration poll. "
+        text="Proof for buffer, shadow-array, list and integer-arithmetic safety, for the callback length, for the bound of the handler's loop and for all eight float->integer conversions; sanitizer builds (and the transfer budget) for the calibration poll. "
              "Theorem Sx.C08_memory_safe: for either build, EVERY packet-buffer size (a parameter of the model, not five samples), any "
              "initial chip (both register pages, FIFO and every over-the-air length byte are universally quantified answers), any history of "
              "API calls with any arguments (the two raw register calls with register numbers 0x00..0x70), handler invocations, environment events between any two transfers, any failing transfers and any "
@@ -121,11 +121,13 @@ CLAIMS = {
              "model of all 57 API functions (Prog.Safe: every answer of chip and bus, burst answers of the requested length; the two callback sites use what a successful packet read is proved to leave "
              "in the handle: Sx/Lemmas/RxLen.lean batch_post / loraGuard_post, every answer and failure), lifted to the "
              "interpreter by induction on the program tree (execG_safe, together with contract_api). That the delivered bytes are the bytes the chip stored for THAT packet is C03 "
-             "(rx_invocation) and C05 (C05_rx_done), under their hypothesis that chip and handle agree on the packet format. Float->integer conversions: seven of the eight sites are proved defined "
+             "(rx_invocation) and C05 (C05_rx_done), under their hypothesis that chip and handle agree on the packet format. Float->integer conversions: all eight sites are proved defined "
              "for EVERY input (C08_cast_set_frequency: any uint64_t; C08_cast_get_frequency: any register content; C08_cast_ppm: any error and carrier, NaN/inf refused by the range check; "
              "C08_cast_bitrate / C08_cast_fdev: any binary32 argument; C08_cast_packet_rssi: any RSSI/SNR bytes and carrier; C08_cast_beacon / C08_beacon_timers_defined: any uint32_t interval - zero, the table of C14, and an analytic proof above 133620 ms - "
              "each as Prog.Safe for the class castRange, every answer of chip and bus). "
-             "Not proved (partial): the frequency-error decode for a register read that answers more than the 3 resp. 2 bytes the chip delivers (C12_*_frequency_error prove it inside the register widths) and termination of the calibration poll of rx_calibrate, which waits for the chip to clear ImageCalRunning (the other loop, the byte-wise FIFO drain of the handler, is "
+             "C08_cast_frequency_error: any content of the 3-byte LoRa / 2-byte FSK frequency-error registers and any bandwidth the chip can report - Prog.Safe now hands a register read of n bytes a value "
+             "below 2^(8n), which the interpreter lemma sread_sz proves for both builds). "
+             "Not proved (partial): termination of the calibration poll of rx_calibrate, which waits for the chip to clear ImageCalRunning (the other loop, the byte-wise FIFO drain of the handler, is "
              "proved to be bounded by the packet buffer for every answer of the chip: C08_handler_loop_bounded): these rest on the ASan/UBSan builds of the real driver at buffer sizes 16, 64, 255, 256 and 2047 "
              "with NaN/inf/huge arguments, hostile length bytes and retained chip configurations, and on the per-call SPI-transfer budget.",
         technique="Lean 4 structural safety theorem over all driver programs and all answers, for every buffer size + interpreter lift by induction + ASan/UBSan builds at five buffer sizes",
